@@ -143,17 +143,20 @@ func (r *reader) ConsumeByKey(key []byte, keyHash []byte, offset, maxCount int64
 		return nextOffset, nil, nil
 	}
 
+	// where to continue from if nothing is found: read it before the key lookup, a message
+	// published in between is then found by the next call instead of being skipped
+	caughtUpOffset, err := ix.GetNextOffset()
+	if err != nil {
+		return OffsetInvalid, nil, err
+	}
+
 	positions, err := ix.Keys(keyHash)
 	vhook.At("reader.consumeByKey.afterKeys")
 	switch err {
 	case nil:
 		break
 	case index.ErrKeyNotFound:
-		nextOffset, err := ix.GetNextOffset()
-		if err != nil {
-			return OffsetInvalid, nil, err
-		}
-		return nextOffset, nil, nil
+		return caughtUpOffset, nil, nil
 	default:
 		return OffsetInvalid, nil, err
 	}
@@ -182,11 +185,7 @@ func (r *reader) ConsumeByKey(key []byte, keyHash []byte, offset, maxCount int64
 	}
 
 	if len(msgs) == 0 {
-		nextOffset, err := ix.GetNextOffset()
-		if err != nil {
-			return OffsetInvalid, nil, err
-		}
-		return nextOffset, nil, nil
+		return caughtUpOffset, nil, nil
 	}
 
 	return msgs[len(msgs)-1].Offset + 1, msgs, nil
